@@ -380,6 +380,25 @@ def sibling_messages_oracle(run, rng, vs):
                          ec=[f, c, r, e, sb], level=2, exc=repr(ex))
                 continue
             msgs.append((d, text, m_api, m_par))
+            # from v2.7: five-character MSH-2, MSH-12 carrying more than the bare version id (VID.2 etc.)
+            if v >= '2.7':
+                tr = [x for x in PUNCT if x not in (f, c, r, e, sb) and x not in '_'][0]
+                d6 = dict(d)
+                d6['TRUNCATION'] = tr
+                msh6 = f.join(['MSH', c + r + e + sb + tr, 'A', 'B', 'C', 'D', '20200101', '', mt, '1', 'P',
+                               v + c + 'ITA' + c + 'x'])
+                text6 = '\r'.join([msh6, f.join(['EVN', 'A01', '20200101'])])
+                try:
+                    m6 = parse_message(text6, find_groups=False)
+                    got6 = m6.encoding_chars.get('TRUNCATION')
+                    if got6 != tr or m6.to_er7() != text6:
+                        run.fail('reparse-set-differs', 'a v2.7+ message with five encoding characters and a multi-'
+                                 'component MSH-12 does not keep its set / text', version=v, ec=[f, c, r, e, sb, tr],
+                                 level=2, route='msh12-components', got=got6, expected=tr)
+                except Exception as ex:  # noqa
+                    run.fail('parse-raises', 'parse_message raised on a v2.7+ message with five encoding characters and a '
+                             'multi-component MSH-12', version=v, ec=[f, c, r, e, sb, tr], level=2, exc=repr(ex),
+                             route='msh12-components')
         for rounds in range(2):
             order = list(range(len(msgs)))
             rng.shuffle(order)
